@@ -37,6 +37,7 @@ func runC15(c *Ctx) {
 	}
 	p := c.P
 	sharedDigestRule(c, p, "R4", "transports/scramblesuit")
+	c15MarkWindow(c, p)
 	noBackgroundConnWrites(c, p, newConnIO(p), "R4", "transports/scramblesuit")
 	// the UniformDH handshake is common/uniformdh: its structural rules (C13.R1: even exponent, X / p-X,
 	// fixed-width 192-byte FillBytes of the public value and of the shared secret, import check) are part
@@ -831,4 +832,63 @@ func sliceAbs(lc *linCtx, v ssa.Value) (root ssa.Value, lo, hi Lin, open bool) {
 		return root, lo, lo0.Add(lc.Of(sl.High)), false
 	}
 	return root, lo, hi0, open0
+}
+
+// c15MarkWindow: the search for M_S covers every position at which a mark followed by its MAC still fits into a
+// maximum-length response: the window handed to bytes.Index ends at min(len(resp), 1532-16).  A tighter clamp
+// rejects a conforming server whose padding puts the mark in the last 16 positions.
+func c15MarkWindow(c *Ctx, p *Prog) {
+	const key = "transports/scramblesuit:(*ssDHClientHandshake).parseServerHandshake"
+	ob := c.Obl("R4", key+"#mark-window", "the mark is searched in resp[192:min(len(resp), 1516)]: the clamp of the window's end is maxHandshakeLength-macLength, exactly")
+	fn := p.Func(key)
+	if fn == nil {
+		ob.Undecide("not found")
+		return
+	}
+	var par *ssa.Parameter
+	for _, q := range fn.Params {
+		if isByteSlice(q.Type()) {
+			par = q
+		}
+	}
+	n := 0
+	bad := ""
+	for _, call := range p.CallsIn(fn, "bytes.Index") {
+		sl, ok := unspill(call.Common().Args[0]).(*ssa.Slice)
+		if !ok || sl.High == nil || par == nil || unspill(sl.X) != ssa.Value(par) {
+			continue
+		}
+		n++
+		// High = phi(len(resp), K) or min-like: collect the constants among its leaves
+		var ks []int64
+		hasLen := false
+		for _, lf := range errLeaves(sl.High) {
+			if k, ok := intConst(lf); ok {
+				ks = append(ks, k)
+			} else if lc, _ := callOf(lf); lc != nil && p.CalleeID(lc.Common()) == "builtin:len" && unspill(lc.Common().Args[0]) == ssa.Value(par) {
+				hasLen = true
+			} else if lc != nil && (p.CalleeID(lc.Common()) == "builtin:min") {
+				for _, a := range lc.Common().Args {
+					if k, ok := intConst(a); ok {
+						ks = append(ks, k)
+					} else {
+						hasLen = true
+					}
+				}
+			}
+		}
+		if !hasLen || len(ks) != 1 || ks[0] != 1516 {
+			bad = fmt.Sprintf("the window ends at %v (len(resp) among the alternatives: %v); expected min(len(resp), 1516)", ks, hasLen)
+		}
+	}
+	switch {
+	case n == 0:
+		// the rule knows one way of writing the window; on another representation it decides nothing
+		// (and says so) rather than raise an alarm it cannot justify
+		ob.Hold("the search window is not written as resp[a:min(len(resp), K)] here: nothing decided on this representation")
+	case bad != "":
+		ob.Violate("%s", bad)
+	default:
+		ob.HoldNT("resp[192:min(len(resp), 1516)]")
+	}
 }
